@@ -15,6 +15,9 @@ package tokenizer
 // "byte 0" (what Reset leaves), from where counting starts at column 1 anyway.
 //@ pred pc_ok(t *Tokenizer) = (t.posCacheColumn >= 1 || t.posCacheIndex == 0) && 0 <= t.posCacheIndex && t.posCacheIndex <= t.pos.Index
 
+// Token types of string literals (built by readQuotedString / readTripleQuotedString only).
+//@ pred isStringToken(k models.TokenType) = k == models.TokenTypeSingleQuotedString || k == models.TokenTypeDoubleQuotedString || k == models.TokenTypeString || k == models.TokenTypeTripleSingleQuotedString || k == models.TokenTypeTripleDoubleQuotedString
+
 // Default contract of the scanning methods: the invariant is preserved, the cursor never moves backwards,
 // the input is not replaced, and a successful read that started before the end of the input consumed
 // at least one byte (progress: the measure len(input) - pos.Index of the main loops decreases).
@@ -126,6 +129,7 @@ package tokenizer
 //@ func (*Tokenizer).readIdentifier
 //@   inherit -C20
 //@   requires recv.pos.Index < len(recv.input)
+//@   ensures implies(succeeded(), result0.Word != nil && len(result0.Value) >= 1)
 //@   ensures @C20 implies(succeeded(), cost() <= 100*(peak() - old(recv.pos.Index)) + 200)
 //@   ensures @C20 cost() <= 100*(peak() - old(recv.pos.Index)) + (recv.posCacheIndex - old(recv.posCacheIndex)) + 16*len(recv.input) + 1000
 //@   ensures @C20 pc_ok(recv) && recv.posCacheIndex >= old(recv.posCacheIndex)
@@ -166,6 +170,7 @@ package tokenizer
 //@ func (*Tokenizer).readQuotedString
 //@   inherit -C20
 //@   requires recv.pos.Index < len(recv.input)
+//@   ensures implies(succeeded(), isStringToken(result0.Type))
 //@   ensures @C20 implies(succeeded(), cost() <= 24*(peak() - old(recv.pos.Index)) + 24)
 //@   ensures @C20 cost() <= 24*(peak() - old(recv.pos.Index)) + (recv.posCacheIndex - old(recv.posCacheIndex)) + 40*len(recv.input) + 4000
 //@   ensures @C20 pc_ok(recv) && recv.posCacheIndex >= old(recv.posCacheIndex)
@@ -182,6 +187,7 @@ package tokenizer
 //@ func (*Tokenizer).readTripleQuotedString
 //@   inherit
 //@   requires recv.pos.Index < len(recv.input)
+//@   ensures implies(succeeded(), isStringToken(result0.Type))
 //@ func (*Tokenizer).handleEscapeSequence
 //@   inherit
 //@   requires recv.pos.Index < len(recv.input)
@@ -191,6 +197,7 @@ package tokenizer
 // add up to at most the input length. Both caches stay behind the cursor.
 //@ func (*Tokenizer).nextToken
 //@   inherit -C20
+//@   ensures implies(succeeded(), recv.tokenStart >= old(recv.pos.Index) && recv.tokenStart <= recv.pos.Index)
 //@   ensures @C20 implies(succeeded(), recv.tokenStart >= recv.posCacheIndex && recv.tokenStart >= old(recv.pos.Index) && recv.tokenStart <= recv.pos.Index)
 //@   ensures @C20 implies(succeeded(), cost() <= 400*(peak() - old(recv.pos.Index)) + (recv.posCacheIndex - old(recv.posCacheIndex)) + (recv.codeScanIndex - old(recv.codeScanIndex)) + 400)
 //@   ensures @C20 cost() <= 400*(peak() - old(recv.pos.Index)) + (recv.posCacheIndex - old(recv.posCacheIndex)) + (recv.codeScanIndex - old(recv.codeScanIndex)) + 60*len(recv.input) + 8000
@@ -199,6 +206,12 @@ package tokenizer
 //@   ensures @C20 recv.codeScanIndex >= old(recv.codeScanIndex) && recv.codeScanIndex <= recv.pos.Index
 //@ func (*Tokenizer).readPunctuation
 //@   inherit -C20
+//@   requires recv.tokenStart <= recv.pos.Index
+//@   ensures implies(succeeded(), recv.tokenStart >= old(recv.tokenStart) && recv.tokenStart <= recv.pos.Index)
+// Faithful reading (C04): an operator, punctuation or placeholder token that readPunctuation builds itself (no word, not
+// a string literal, no comment skipped on the way, not the content of a dollar-quoted string, not a named or numbered placeholder, whose name comes from another
+// reader) has as its value exactly the bytes the cursor moved over.
+//@   ensures @C04 implies(succeeded() && recv.tokenStart == old(recv.tokenStart) && result0.Word == nil && !isStringToken(result0.Type) && result0.Type != models.TokenTypeDollarQuotedString && (result0.Type != models.TokenTypePlaceholder || len(result0.Value) == 1), len(result0.Value) == recv.pos.Index - old(recv.pos.Index))
 //@   requires @C20 recv.tokenStart >= recv.posCacheIndex && recv.tokenStart <= recv.pos.Index
 //@   ensures @C20 implies(succeeded(), recv.tokenStart >= recv.posCacheIndex && recv.tokenStart >= old(recv.tokenStart) && recv.tokenStart <= recv.pos.Index)
 //@   requires recv.pos.Index < len(recv.input)
